@@ -413,18 +413,20 @@ class CounterToken(Token, FileSystemEventHandler):
 
             tf = self.cache.get(dependency.name, None)
             if tf is None:
+                # Already removed (e.g. by another scheduler that was watching
+                # the job): the state has just been read again, dependents
+                # still have to be notified
                 logging.error(
                     "Could not find the taken token for %s (%s)",
                     dependency,
                     dependency.name,
                 )
-                return
-
-            logging.debug("Deleting %s from token cache", dependency.name)
-            del self.cache[dependency.name]
-            self.available += tf.count
-            logging.debug("%s: available %d", self, self.available)
-            tf.delete()
+            else:
+                logging.debug("Deleting %s from token cache", dependency.name)
+                del self.cache[dependency.name]
+                self.available += tf.count
+                logging.debug("%s: available %d", self, self.available)
+                tf.delete()
 
         self.aio_notify()
 
